@@ -5,6 +5,7 @@
 From Coq Require Import List NArith Bool.
 From VLib Require Import Chunks.
 From VMem Require Import StorageAccessor.
+From VDrv Require Import CopyCmd.
 Import ListNotations.
 Open Scope N_scope.
 
@@ -65,12 +66,17 @@ Inductive op :=
     middleware only), bytes returned (D2H / accessor read). *)
 Record oobs := mkOObs { o_crash : bool; o_flush : bool; o_reqs : list (N * N * N); o_data : list N }.
 
+(** Completion of a command of the default middleware: the order in which the
+    harness answered the requests (index into flushes ++ copy requests) and the
+    number of responses after which the command left its queue. *)
+Record cobs := mkCObs { co_order : list N; co_after : N }.
+
 Record dcase := mkDCase {
   d_lg : N;
   d_magic : bool;
   d_pt : list (N * page);
   d_devs : list (N * N * N);
-  d_ops : list (op * list buffer * oobs);
+  d_ops : list (op * list buffer * oobs * cobs);
   d_windows : list (N * list N)      (* final storage content: (pAddr, bytes) *)
 }.
 
@@ -132,13 +138,22 @@ Definition oobs_eqb (a b : oobs) : bool :=
 
 (** index (from 1) of the first operation whose observation differs; the
     windows are compared after the last operation (index = number of ops + 1) *)
-Fixpoint run_ops (c : dcase) (pt : ptable) (i : nat) (ops : list (op * list buffer * oobs)) (m : bytes)
+Definition after_ok (c : dcase) (o : op) (exp : oobs) (co : cobs) : bool :=
+  match o with
+  | OpH2D _ _ | OpD2H _ _ =>
+    if d_magic c || o_crash exp then true else
+    let nflush := if o_flush exp then (length (d_devs c) - 1)%nat else 0%nat in
+    co_after co =? expect_after nflush (length (o_reqs exp)) (co_order co)
+  | _ => true
+  end.
+
+Fixpoint run_ops (c : dcase) (pt : ptable) (i : nat) (ops : list (op * list buffer * oobs * cobs)) (m : bytes)
   : option nat * bytes :=
   match ops with
   | [] => (None, m)
-  | (o, bufs, seen) :: r =>
+  | (o, bufs, seen, co) :: r =>
     let '(exp, m') := run_op c pt o bufs m in
-    if oobs_eqb exp seen then
+    if oobs_eqb exp seen && after_ok c o exp co then
       if o_crash exp then (None, m') else run_ops c pt (S i) r m'
     else (Some i, m')
   end.
